@@ -8,7 +8,9 @@ Tie: (i) the walk of the real `_compute_frame` (and of the torch port) is probed
 one-hot filters on a frame whose half spectrum is 1, 2, 3, ... and compared exactly
 with the model; (ii) compute_full's frames (index-coded) against full_frames;
 Search: independent oracle sum_k |fft(w * frame)[k] * H_full[k]|^p with H_full
-rebuilt from get_truncated_response by the documented recipes.
+rebuilt from get_truncated_response by the documented recipes; the same oracle with the
+package setting config.LOG_FLOOR_VALUE re-assigned after import (the floor of the property is the
+value in force) and on long 16-bit-scale loud leads followed by a quiet non-zero tail (energy).
 """
 
 import numpy as np
@@ -227,6 +229,151 @@ def end_to_end(ctx):
     return bad
 
 
+def value_mismatch(c, got, ref, desc):
+    """The comparison of end_to_end (1e-8: absolute on logs, relative otherwise); a finding dict or None."""
+    if got.shape != ref.shape:
+        return dict(desc, what="shape", got=list(got.shape), expected=list(ref.shape))
+    if not got.size:
+        return None
+    if c._log:
+        d = np.abs(got - ref)
+    else:
+        d = np.abs(got - ref) / (np.abs(ref) + 1e-30)
+    d = np.where(np.isfinite(d), d, np.inf)
+    if np.max(d) <= 1e-8:
+        return None
+    worst = np.unravel_index(np.argmax(d), got.shape)
+    return dict(desc, what="value", max_err=float(d[worst]), frame=int(worst[0]), coeff=int(worst[1]),
+                got=float(got[worst]), expected=float(ref[worst]))
+
+
+def small_bank(rng, filters, rate):
+    kind = rng.choice(["gabor", "gammatone", "tri", "fbank", "tri_analytic"])
+    if kind == "gabor":
+        return kind, filters.GaborFilterBank(rng.choice(["mel", "bark"]), num_filts=4, sampling_rate=rate)
+    if kind == "gammatone":
+        return kind, filters.ComplexGammatoneFilterBank("mel", num_filts=4, sampling_rate=rate)
+    if kind == "tri":
+        return kind, filters.TriangularOverlappingFilterBank("mel", num_filts=5, sampling_rate=rate)
+    if kind == "tri_analytic":
+        return kind, filters.TriangularOverlappingFilterBank("bark", num_filts=5, sampling_rate=rate, analytic=True)
+    return kind, filters.Fbank(num_filts=5, sampling_rate=rate)
+
+
+def retuned_floor(ctx):
+    """LOG_FLOOR_VALUE is a documented run-time setting: the log floor of the property is the value IN FORCE when the
+    features are computed.  Re-assign it after the package was imported (before or after the computer is built), use_log
+    computers, signals made of loud / quiet / faint / silent stretches so that coefficients fall on both sides of the
+    shipped and of the new floor; the oracle reads the floor in force."""
+    C.ensure_impl_path()
+    from pydrobert.speech import compute, config, filters
+
+    rng = ctx.rng
+    nprng = np.random.RandomState(ctx.seed + 6)
+    bad = []
+    shipped = config.LOG_FLOOR_VALUE
+    try:
+        for rep in range(ctx.scale(40, 300)):
+            floor = rng.choice([1e-2, 1e-12, 1e-2, 1e-12, 1.0, 1e-8, 3e-4, shipped])
+            when = rng.choice(["before_construction", "after_construction"])
+            rate = rng.choice([8000, 16000])
+            config.LOG_FLOOR_VALUE = shipped
+            name, bank = small_bank(rng, filters, rate)
+            kw = dict(frame_length_ms=rng.choice([4.0, 6.3, 8.0, 16.0]), frame_shift_ms=rng.choice([2.0, 2.5, 4.0]),
+                      frame_style=rng.choice(["causal", "centered"]), include_energy=rng.random() < 0.5,
+                      pad_to_nearest_power_of_two=rng.random() < 0.5, use_log=True, use_power=rng.random() < 0.5,
+                      window_function=rng.choice([None, "hamming", "hann"]))
+            if when == "before_construction":
+                config.LOG_FLOOR_VALUE = floor
+            try:
+                c = compute.STFTFrameComputer(bank, **kw)
+            except ValueError:
+                continue
+            config.LOG_FLOOR_VALUE = floor
+            Lv, Sv = c.frame_length, c.frame_shift
+            if not (0 < Sv <= Lv):
+                continue
+            D = documented_dft_size(Lv, kw["pad_to_nearest_power_of_two"])
+            # stretches of 2-3 frames each: loud, quiet, faint, fainter, digital silence (in random order)
+            levels = [1.0, 1e-1, 1e-2, 1e-3, 1e-4, 1e-6, 0.0, 0.0]
+            rng.shuffle(levels)
+            levels = levels[:rng.randint(3, 6)]
+            x = np.concatenate([nprng.randn(rng.randint(2 * Lv, 3 * Lv)) * lv for lv in levels])
+            got = c.compute_full(x)
+            ref = oracle_features(c, x, config, D)
+            desc = dict(bank=name, rate=rate, frame_length=Lv, frame_shift=Sv, dft_size=D, N=len(x),
+                        LOG_FLOOR_VALUE=floor, shipped_LOG_FLOOR_VALUE=shipped, setting_reassigned=when,
+                        signal="white noise stretches (seed %d + 6) scaled by %s" % (ctx.seed, levels),
+                        **{k: str(v) for k, v in kw.items()})
+            ctx.case(desc, nontrivial=got.shape[0] > 0 and floor != shipped)
+            ctx.count("floor:LOG_FLOOR_VALUE=%g" % floor)
+            ctx.count("floor:" + when)
+            if ref.size:
+                un = np.exp(ref)  # max(sum, floor in force)
+                lo, hi = min(shipped, floor), max(shipped, floor)
+                ctx.count("floor:coeff_floored", int(np.sum(un <= floor * (1 + 1e-12))))
+                ctx.count("floor:coeff_between_shipped_and_new_floor", int(np.sum((un > lo * (1 + 1e-12)) & (un < hi))))
+                ctx.count("floor:coeff_above_both_floors", int(np.sum(un >= hi * (1 + 1e-12))))
+            b = value_mismatch(c, got, ref, desc)
+            if b is not None:
+                b["what"] += " (log floor is the LOG_FLOOR_VALUE in force = %g)" % floor
+                bad.append(b)
+    finally:
+        config.LOG_FLOOR_VALUE = shipped
+    return bad
+
+
+def loud_then_quiet(ctx):
+    """Energy (and every other) coefficient of each frame depends on that frame alone: a long loud lead at 16-bit
+    integer scale followed by a much quieter, non-zero tail.  The tail frames' energy is the mean square of the frame."""
+    C.ensure_impl_path()
+    from pydrobert.speech import compute, config, filters
+
+    rng = ctx.rng
+    nprng = np.random.RandomState(ctx.seed + 7)
+    bad = []
+    for rep in range(ctx.scale(16, 120)):
+        rate = rng.choice([8000, 16000])
+        name, bank = small_bank(rng, filters, rate)
+        kw = dict(frame_length_ms=rng.choice([8.0, 16.0, 25.0]), frame_shift_ms=rng.choice([4.0, 10.0]),
+                  frame_style=rng.choice(["causal", "centered"]), include_energy=True,
+                  pad_to_nearest_power_of_two=rng.random() < 0.5, use_log=rng.random() < 0.5, use_power=rng.random() < 0.5,
+                  window_function=rng.choice([None, "hamming"]))
+        try:
+            c = compute.STFTFrameComputer(bank, **kw)
+        except ValueError:
+            continue
+        Lv, Sv = c.frame_length, c.frame_shift
+        if not (0 < Sv <= Lv):
+            continue
+        D = documented_dft_size(Lv, kw["pad_to_nearest_power_of_two"])
+        n_lead = rng.randint(3000, ctx.scale(8000, 40000))
+        n_tail = rng.randint(2 * Lv, 6 * Lv)
+        a_lead = rng.choice([1e4, 2e4, 3e4])
+        a_tail = rng.choice([1e-3, 1e-2, 1e-1, 1.0])
+        integer_lead = rng.random() < 0.5
+        lead = nprng.randn(n_lead) * a_lead
+        if integer_lead:
+            lead = np.clip(np.rint(lead), -32768, 32767)
+        x = np.concatenate([lead, nprng.randn(n_tail) * a_tail])
+        got = c.compute_full(x)
+        ref = oracle_features(c, x, config, D)
+        desc = dict(bank=name, rate=rate, frame_length=Lv, frame_shift=Sv, dft_size=D, N=len(x),
+                    signal="white noise (seed %d + 7): %d samples of amplitude %g%s, then %d samples of amplitude %g"
+                           % (ctx.seed, n_lead, a_lead, " rounded to 16-bit integers" if integer_lead else "", n_tail, a_tail),
+                    **{k: str(v) for k, v in kw.items()})
+        ctx.case(desc, nontrivial=got.shape[0] > 0)
+        ctx.count("lead:tail_amplitude=%g" % a_tail)
+        ctx.count("lead:use_log=%s,use_power=%s" % (kw["use_log"], kw["use_power"]))
+        b = value_mismatch(c, got, ref, desc)
+        if b is not None:
+            if b["what"] == "value":
+                b["what"] = "value of %s in frame %d (loud lead then quiet tail; the quiet tail begins at sample %d)" % (
+                    "the energy coefficient" if b["coeff"] == 0 else "coefficient %d" % b["coeff"], b["frame"], n_lead)
+            bad.append(b)
+    return bad
+
+
 def run(ctx):
     C.ensure_impl_path()
     stft.regenerate(ctx)
@@ -324,11 +471,21 @@ def run(ctx):
     # (iii) end-to-end oracle
     for b in end_to_end(ctx)[:6]:
         ctx.fail("compute_full differs from the documented definition: %s" % b.get("what"), b, kind="impl")
+    # (iv) the same oracle with the package setting LOG_FLOOR_VALUE re-assigned at run time
+    for b in retuned_floor(ctx)[:4]:
+        ctx.fail("compute_full differs from the documented definition after config.LOG_FLOOR_VALUE was re-assigned: %s" % b.get("what"),
+                 b, kind="impl")
+    # (v) the same oracle on a long loud lead followed by a quiet tail
+    for b in loud_then_quiet(ctx)[:4]:
+        ctx.fail("compute_full differs from the documented definition: %s" % b.get("what"), b, kind="impl")
     ctx.cov["rule"] = (
         "walk probes: every DFT size D<=%d, every start bin, lengths {1, D/2, D/2+1, D-1, D, D+1, random} (all lengths in thorough), "
         "numpy and torch, one-hot filters on a frame with half spectrum 1,2,3,..; frames: random (L,S,style,N) index-coded; "
         "end to end: random real/analytic/complex banks x rates x frame lengths (incl. default) x shifts x styles x windows x flags "
-        "against an independent full-spectrum oracle (1e-8). non-trivial: walk reaches the mirrored half / at least one frame."
+        "against an independent full-spectrum oracle (1e-8); the same oracle with config.LOG_FLOOR_VALUE re-assigned after import "
+        "(1e-12 .. 1, before / after construction, use_log computers, loud / quiet / faint / silent stretches: coefficients on both "
+        "sides of the shipped and the new floor) and on 16-bit-scale loud leads of thousands of samples followed by a quiet non-zero "
+        "tail (include_energy). non-trivial: walk reaches the mirrored half / at least one frame."
     ) % maxD
     ctx.cov["trusted_base"] += [
         "np.fft.rfft / torch.fft.rfft compute the DFT of a real frame, hence the Hermitian symmetry assumed by stft_coeff_full_spectrum",
